@@ -42,12 +42,12 @@ let obs_string (hash : byte list) (ents : (byte list * byte list) list) : string
   Buffer.contents b
 
 (* observe every handle (Hash then Entries), threading the cache writes of Hash *)
-let observe (st : state) : state * string list =
+let observe fg (st : state) : state * string list =
   let m = ref st.s_mem in
   let obs = List.map (fun hd ->
     let (m1, hv) = hash_handle hh !m hd in
     m := m1;
-    obs_string hv (entries_handle !m hd)) st.s_hs in
+    obs_string hv (entries_handle fg !m hd)) st.s_hs in
   ({ st with s_mem = !m }, obs)
 
 let kind_tag = function
@@ -55,7 +55,13 @@ let kind_tag = function
   | SetVer (_, true) -> "setversion-v1" | SetVer (_, false) -> "setversion-v0"
   | Commit _ -> "writedirty" | HashOp _ -> "hash"
 
-let check inp obs =
+let check inp obs0 =
+  (* the first field tells which pending Delete/Get repairs the tree under test contains *)
+  let fd, fg, obs =
+    (match String.index_opt obs0 ' ' with
+     | Some i when String.length obs0 >= 8 && String.sub obs0 0 6 = "probe:" ->
+       (obs0.[6] = '1', obs0.[7] = '1', String.sub obs0 (i + 1) (String.length obs0 - i - 1))
+     | _ -> fail "C03: observation without probe: %s" (String.sub obs0 0 (min 40 (String.length obs0)))) in
   let toks = split_ws inp in
   let toks = (match toks with "U" :: r -> r | l -> l) in
   let steps = List.map parse_step toks in
@@ -64,17 +70,17 @@ let check inp obs =
   let render prev cur = (* "=" for unchanged handles *)
     List.mapi (fun j o -> match List.nth_opt prev j with Some p when p = o -> "=" | _ -> o) cur in
   let buf = Buffer.create 1024 in
-  let st0, o0 = observe init_state in
+  let st0, o0 = observe fg init_state in
   Buffer.add_string buf (String.concat "/" ("init" :: o0));
   let model_panic_at = ref (-1) in
   let rec go st prev k = function
     | [] -> ()
     | s :: r ->
-      let (st1, res) = exec hh true st s in
+      let (st1, res) = exec hh true fd fg st s in
       Buffer.add_char buf ' ';
       (match res with
        | ROk ->
-         let st2, cur = observe st1 in
+         let st2, cur = observe fg st1 in
          Buffer.add_string buf (String.concat "/" ("ok" :: render prev cur));
          go st2 cur (k + 1) r
        | RPanic -> model_panic_at := k; Buffer.add_string buf "panic"
@@ -148,6 +154,7 @@ let check inp obs =
   let tags = String.concat "," (
     kinds @ [Printf.sprintf "handles-%d" (1 + nsnap)]
     @ (if frozen then ["frozen-parents"] else ["parent-mutated"])
+    @ [Printf.sprintf "tree-delete-fix-%b-get-fix-%b" fd fg]
     @ (if !model_panic_at >= 0 then ["version-regress-panic"] else [])) in
   { prop_ok; model_eq; nontrivial = (nsnap >= 1 && mut_after_snap); finding = "-"; tags;
     detail = (if prop_ok && model_eq then ""
